@@ -19,7 +19,9 @@ type WrapT struct {
 	// AfterSend runs after the inner Send returned and before the wrapper returns (a Send that returns late:
 	// the envelope is on its way while the caller has not got control back yet)
 	AfterSend func()
-	mu        sync.Mutex
+	// OnSend sees the envelope first; an error it returns is the Send's result and nothing is written
+	OnSend func(e lime.VerifEnvelope) error
+	mu     sync.Mutex
 	n         int
 }
 
@@ -38,6 +40,11 @@ func (w *WrapT) Receive(ctx context.Context) (lime.VerifEnvelope, error) {
 func (w *WrapT) Send(ctx context.Context, e lime.VerifEnvelope) error {
 	if f := w.BeforeSend; f != nil {
 		if err := f(); err != nil {
+			return err
+		}
+	}
+	if f := w.OnSend; f != nil {
+		if err := f(e); err != nil {
 			return err
 		}
 	}
